@@ -7,7 +7,7 @@ package textractspecial
 //@ property C15 C07
 
 //@ pure func tableok(t []bool) bool := t == nil || len(t) == 256
-//@ global len(patternUnescaper.escapableCharMap) == 256
+//@ global len(patternUnescaper.escapableCharMap) == 256 && patternUnescaper.escapableCharMap[42] != 0 && patternUnescaper.escapableCharMap[91] != 0 && patternUnescaper.escapableCharMap[93] != 0
 
 //@ func matchValidCharsFromStart(s string, validChars []bool) int
 //@   requires len(validChars) == 256
@@ -94,3 +94,26 @@ package textractspecial
 //@   loop 3: invariant 0 <= i#3 && i#3 <= len(expr) && (rangeStarted ==> i#3 >= 2) && len(table) == 256
 //@   loop 3: decreases len(expr) - i#3
 //@   loop 4: decreases 256 - rc
+
+// ==== configuration: verify => construct (C16) ===================================================================================
+// extrok(k, pos, n): newStringExtractorSimple accepts the pattern with key k for that position and range (opaque)
+//@ pure func extrok(k int, pos stringExtractorPosition, n int) bool
+//@ func newStringExtractorSimple(position stringExtractorPosition, pattern string, maxRange int) (stringExtractor, error)
+//@   property C16 C15
+//@   requires (position == extractFromStart || position == extractFromEnd) && maxRange >= 0
+//@   modifies mem(byte), mem(bool), mem(string)
+//@   ensures[?deterministic] result.1 == nil <==> extrok(key(pattern), position, maxRange)
+//@   ensures[accepted-extractors-are-usable] result.1 == nil ==> validextractor(result.0)
+//@ pure func postype(c *Config) bool := c.Type == "extractHead" || c.Type == "extractTail"
+//@ pure func cfgok(c *Config, s base.LogSchema) bool := postype(c) && len(c.Key) > 0 && base.hasf(s, key(c.Key)) && len(c.DestKey) > 0 && base.hasf(s, key(c.DestKey))
+//@      && c.MaxLength > 0 && extrok(key(c.Pattern), (c.Type == "extractHead" ? extractFromStart : extractFromEnd), c.MaxLength)
+//@ func (c *Config) VerifyConfig(schema base.LogSchema) error
+//@   property C16
+//@   requires c != nil && postype(c)
+//@   modifies mem(byte), mem(bool), mem(string)
+//@   ensures[accepted-config-is-constructible] result == nil ==> cfgok(c, schema)
+//@ func (c *Config) NewTransform(schema base.LogSchema, _ logger.Logger, _ base.LogCustomCounterRegistry) base.LogTransform
+//@   property C16
+//@   requires c != nil && cfgok(c, schema)
+//@   modifies mem(byte), mem(bool), mem(string)
+//@   ensures  result != nil
